@@ -178,6 +178,33 @@ def block_assignment_sources(facts, asg):
     return assigned, rp
 
 
+def same_effect(f, g):
+    """the bodies of f and g are the same statements once their first parameters are identified and `return *this` is dropped"""
+    def shape(n, pname):
+        if isinstance(n, list):
+            return [shape(x, pname) for x in n]
+        if not isinstance(n, dict):
+            return n
+        if n.get("k") == "Cast":
+            return shape(n.get("e"), pname)
+        if n.get("k") == "Ref" and n.get("d") == "param" and n.get("n") == pname:
+            return {"k": "Ref", "d": "param", "n": "<source>"}
+        return {k: shape(v, pname) for k, v in sorted(n.items()) if k not in ("l", "t", "tw", "cv", "from", "ck", "elidable", "id", "idx")}
+
+    def sts(fn):
+        pn = fn["params"][0]["n"] if fn.get("params") else None
+        out = []
+        for x in ir.stmts(fn["body"]):
+            if isinstance(x, dict) and x.get("k") == "Return" and (x.get("e") is None or unwrap_all_casts(x["e"]).get("k") in ("This", "Un")):
+                continue
+            if isinstance(x, dict) and x.get("k") == "Null":
+                continue
+            out.append(shape(x, pn))
+        return out
+    a, b = sts(f), sts(g)
+    return bool(a) and a == b
+
+
 def check_block_assignment(run, rule, only=None):
     facts = run.facts
     blk = facts.record("CDNS::CdnsBlock", rule=rule)
@@ -187,12 +214,34 @@ def check_block_assignment(run, rule, only=None):
     asg = asg[0]
     assigned, rp = block_assignment_sources(facts, asg)
     n = 0
+    # lookup memos (cdnsverif/memos.py): a validity flag that the assignment resets next to the member copies leaves the copy
+    # without a memo, which is how a freshly built block starts; the members read only under that flag carry nothing
+    from .. import memos
+    memo = {}
+    groups = memos.flags(facts, "CDNS::CdnsBlock")
+    if groups:
+        copies = [node for lp, rhs, node in consumption.assignment_targets(ir.stmts(asg["body"]))
+                  if lp and lp[0] == "this" and len(lp) == 2 and path(unwrap_all_casts(rhs)) == (rp, lp[1])]
+        for b in ir.walk(asg["body"]):
+            if b.get("k") != "Block" or not any(any(x is c for x in ir.walk(st)) for st in b.get("s", []) for c in copies[:1]):
+                continue
+            for st in b.get("s", []):
+                u = unwrap(st) if isinstance(st, dict) else None
+                if isinstance(u, dict) and u.get("k") == "Bin" and u.get("op") == "=" and ir.const_value(u.get("rhs")) == 0:
+                    lp = path(u.get("lhs"))
+                    if lp and len(lp) == 2 and lp[0] == "this" and lp[1] in groups and assigned.get(lp[1]) is None:
+                        memo[lp[1]] = "validity flag of a lookup memo, reset with the copy: the copy starts without a memo like a freshly built block"
+                        for g in groups[lp[1]]:
+                            memo[g] = "read only where %s is true, which the assignment resets" % lp[1]
     for f in blk["fields"]:
         if only and f["n"] not in only:
             continue
         n += 1
         src = assigned.get(f["n"])
         ok = src == (rp, f["n"])
+        if not ok and f["n"] in memo:
+            run.ob(rule, "CdnsBlock::operator=:%s" % f["n"], True, asg, asg["line"], memo[f["n"]])
+            continue
         run.ob(rule, "CdnsBlock::operator=:%s" % f["n"], ok, asg, asg["line"],
                "member copied from the same member of the source" if ok else
                ("member %s is not assigned in CdnsBlock::operator=: the copy keeps its old %s" % (f["n"], f["n"]) if src is None else
@@ -337,8 +386,18 @@ def check(run):
     rasg = rasg[0]
     rp = rhs_param(rasg)
     base_call = [c for c in ir.calls_in(rasg["body"]) if callee_qn(c) == "CDNS::CdnsBlock::operator="]
-    run.ob("R19.2", "CdnsBlockRead::operator=:base", len(base_call) == 1, rasg, rasg["line"],
-           "delegates the CdnsBlock part to CdnsBlock::operator=" if len(base_call) == 1 else "CdnsBlock::operator= is not called exactly once")
+    okb = len(base_call) == 1
+    whyb = "delegates the CdnsBlock part to CdnsBlock::operator=" if okb else "CdnsBlock::operator= is not called exactly once"
+    if not base_call:
+        # the base part spelled out (a shared member-wise helper expanded here): every CdnsBlock member from the same member
+        blk_ = facts.record("CDNS::CdnsBlock", rule="R19.2")
+        srcs_, rp_b = block_assignment_sources(facts, rasg)
+        missing_ = [f_["n"] for f_ in blk_["fields"] if srcs_.get(f_["n"]) != (rp_b, f_["n"])]
+        if not missing_:
+            okb, whyb = True, "copies every CdnsBlock member from the same member of the source itself"
+        elif len(missing_) < len(blk_["fields"]):
+            whyb = "copies the CdnsBlock part member by member but leaves out %s" % ", ".join(missing_)
+    run.ob("R19.2", "CdnsBlockRead::operator=:base", okb, rasg, rasg["line"], whyb)
     own = {}
     bodies = [rasg["body"]]
     # parameterless members of the class called on this object (`rewind()`) do part of the assignment's work
@@ -399,6 +458,13 @@ def check(run):
                 if not bad_ and (delegating or all(c_ in inited for c_ in cursors)):
                     ok = True
                     why_ = "initialises every cursor member on the new object's own containers"
+            if not ok:
+                # the third way: the operation does exactly what the copy assignment does (all of them expand one shared helper)
+                casg = [g_ for g_ in facts.functions.values() if g_.get("cls") == q and g_["qn"].endswith("::operator=") and g_["sig"] and
+                        "&&" not in g_["sig"][0] and g_["sig"][0].replace("const ", "").startswith(q)]
+                if len(casg) == 1 and casg[0] is not fn and same_effect(fn, casg[0]):
+                    ok = True
+                    why_ = "does exactly what the copy assignment operator does (same statements on the same members)"
             run.ob("R19.3", "%s:%s-delegates" % (short(q), "ctor(%s)" % fn["sig"][0].split("::")[-1] if is_cc else "move-assign"), ok, fn, fn["line"],
                    why_ if ok else "neither delegates to operator= nor initialises its cursor members on its own containers")
     run.floor("R19.3", 12, "special members of the block classes")
